@@ -224,8 +224,126 @@ theorem lInsertAfter_same (k p v : String) : (A.lInsertAfter k p v).norm = (G.lI
 theorem copy_same (a b : String) (db : Int) (r : Bool) : (A.copy a b db r).norm = (G.copy a b db r).norm := by
   cases r <;> rfl
 
+/-! ### Second batch: option-struct methods written in the piece language -/
+
+private theorem piece_norm (p : Piece) : normTok (p.tok true) = normTok (p.tok false) := by cases p <;> rfl
+
+/-- any argv written once in the piece language and sent with upper-case keywords by the adapter and
+    lower-case keywords by go-redis is the same command after normalisation — for every argument -/
+theorem build_norm (ps : List Piece) : normalize (build true ps) = normalize (build false ps) := by
+  induction ps with
+  | nil => rfl
+  | cons p t ih =>
+    simp only [build, normalize, List.map_cons, List.cons.injEq] at *
+    exact ⟨piece_norm p, ih⟩
+
+/-- ZAdd, ZAddNX/XX/LT/GT, ZAddArgs, ZAddArgsIncr: every flag combination, any members -/
+theorem zAdd_same (k : String) (incr nx xx lt gt ch : Bool) (sc : List Int) (ms : List String) :
+    normalize (build true (P.zAdd k incr nx xx lt gt ch sc ms)) = normalize (build false (P.zAdd k incr nx xx lt gt ch sc ms)) :=
+  build_norm _
+
+/-- what the flags mean (both libraries): NX alone; otherwise XX and one of GT/LT may be combined —
+    in particular XX together with GT sends both (the seeded "switch" refactoring loses GT) -/
+theorem zAdd_flag_semantics (k : String) (incr lt ch : Bool) (sc : List Int) (ms : List String) :
+    P.zAdd k incr false true lt true ch sc ms =
+      [.kw "ZADD", .str k, .kw "XX", .kw "GT"] ++ P.opt ch [.kw "CH"] ++ P.opt incr [.kw "INCR"] ++ P.pairs sc ms ∧
+    P.zAdd k incr false true true false ch sc ms =
+      [.kw "ZADD", .str k, .kw "XX", .kw "LT"] ++ P.opt ch [.kw "CH"] ++ P.opt incr [.kw "INCR"] ++ P.pairs sc ms ∧
+    P.zAdd k incr true true true true ch sc ms =
+      [.kw "ZADD", .str k, .kw "NX"] ++ P.opt ch [.kw "CH"] ++ P.opt incr [.kw "INCR"] ++ P.pairs sc ms := by
+  simp [P.zAdd, P.opt]
+
+/-- ZRangeArgs / ZRangeArgsWithScores / ZRangeStore whenever REV is not combined with BYSCORE/BYLEX
+    (or start = stop) -/
+theorem zRange_same_partial (cmd : String) (keys : List String) (a b : String) (bs bl rv : Bool) (o c : Int) (ws : Bool)
+    (h : (rv && (bs || bl)) = false ∨ a = b) :
+    normalize (build true (P.zRangeA cmd keys a b bs bl rv o c ws)) =
+      normalize (build false (P.zRangeG cmd keys a b bs bl rv o c ws)) := by
+  have : P.zRangeG cmd keys a b bs bl rv o c ws = P.zRangeA cmd keys a b bs bl rv o c ws := by
+    unfold P.zRangeG P.zRangeA
+    rcases h with h | h
+    · simp [h]
+    · subst h; simp
+  rw [this]; exact build_norm _
+
+/-- DIVERGENCE (pinned by the adapter's own tests, which pass max first): with REV+BYSCORE/BYLEX go-redis
+    swaps <start> and <stop>, the adapter sends them as given -/
+theorem zRange_rev_by_differs :
+    normalize (build true (P.zRangeA "ZRANGE" ["k"] "1" "4" true false true 0 0 false)) ≠
+      normalize (build false (P.zRangeG "ZRANGE" ["k"] "1" "4" true false true 0 0 false)) := by
+  decide
+
+theorem zRangeBy_same (cmd k a b : String) (ws : Bool) (o c : Int) :
+    normalize (build true (P.zRangeBy cmd k a b ws o c)) = normalize (build false (P.zRangeBy cmd k a b ws o c)) :=
+  build_norm _
+
+theorem zStore_same (cmd : String) (d ks : List String) (w : List Int) (ag : String) (ws : Bool) :
+    normalize (build true (P.zStore cmd d ks w ag ws)) = normalize (build false (P.zStore cmd d ks w ag ws)) :=
+  build_norm _
+
+private theorem filter_strs (xs : List String) :
+    (P.strs xs).filter (fun p => p != Piece.kw "=") = P.strs xs := by
+  induction xs with
+  | nil => rfl
+  | cons x t ih => simp only [P.strs, List.map_cons] at *; simp [ih]
+
+/-- XAdd: the adapter writes the exact-trim operator `=` explicitly, go-redis leaves it out; apart from
+    that token the argv is the same.  MISSING: equality under `normalize` alone (the extra `=` token). -/
+theorem xAdd_same_upto_explicit_eq_partial (st : String) (nm : Bool) (ml : Int) (mi : String) (ap : Bool) (li : Int)
+    (id : String) (vals : List String) :
+    (P.xAdd true st nm ml mi ap li id vals).filter (fun p => p != Piece.kw "=") = P.xAdd false st nm ml mi ap li id vals := by
+  unfold P.xAdd
+  simp only [List.filter_append, filter_strs]
+  cases nm <;> cases ap <;> by_cases h1 : 0 < ml <;> by_cases h2 : (mi != "") = true <;> by_cases h3 : 0 < li <;>
+    by_cases h4 : (id != "") = true <;> simp [P.opt, h1, h2, h3, h4]
+
+theorem xTrim_same_upto_explicit_eq_partial (k strat : String) (ap : Bool) (n li : Int) (hs : strat ≠ "=") :
+    (P.xTrim true k strat ap (.num n) li).filter (fun p => p != Piece.kw "=") = P.xTrim false k strat ap (.num n) li := by
+  unfold P.xTrim
+  cases ap <;> by_cases h3 : 0 < li <;> simp [P.opt, h3, hs]
+
+private theorem formatMs_plain (d : Int) (h : ¬ (0 < d ∧ d < ms)) : formatMs d = plainMs d := by
+  unfold formatMs plainMs
+  split
+  · rename_i hh; simp at hh; exact absurd hh h
+  · rfl
+
+/-- XRead / XReadGroup / XPendingExt for durations that are not strictly between 0 and 1 ms
+    (there the adapter rounds up to 1 ms, go-redis truncates to 0) -/
+theorem xRead_same_partial (ss : List String) (c b : Int) (h : ¬ (0 < b ∧ b < ms)) :
+    normalize (build true (P.xRead ss c b (formatMs b))) = normalize (build false (P.xRead ss c b (plainMs b))) := by
+  rw [formatMs_plain b h]; exact build_norm _
+
+theorem xReadGroup_same_partial (g cn : String) (ss : List String) (c b : Int) (na : Bool) (h : ¬ (0 < b ∧ b < ms)) :
+    normalize (build true (P.xReadGroup g cn ss c b (formatMs b) na)) =
+      normalize (build false (P.xReadGroup g cn ss c b (plainMs b) na)) := by
+  rw [formatMs_plain b h]; exact build_norm _
+
+theorem xPendingExt_same_partial (st g a e cn : String) (idle c : Int) (h : ¬ (0 < idle ∧ idle < ms)) :
+    normalize (build true (P.xPendingExt st g a e cn idle (formatMs idle) c)) =
+      normalize (build false (P.xPendingExt st g a e cn idle (plainMs idle) c)) := by
+  rw [formatMs_plain idle h]; exact build_norm _
+
+theorem xAutoClaim_same (st g a cn : String) (mi c : Int) (j : Bool) :
+    normalize (build true (P.xAutoClaim st g a cn mi c j)) = normalize (build false (P.xAutoClaim st g a cn mi c j)) :=
+  build_norm _
+
+/-- Sort / SortRO / SortStore: the adapter upper-cases the order, go-redis forwards it as given —
+    the same keyword after normalisation (for the orders the adapter accepts; others it refuses) -/
+theorem sort_same (cmd k by_ ord : String) (gets : List String) (o c : Int) (al : Bool) (store : List String) :
+    normalize (build true (P.sort cmd k by_ (sortOrderA ord) gets o c al store)) =
+      normalize (build false (P.sort cmd k by_ (sortOrderG ord) gets o c al store)) := by
+  rw [← build_norm (P.sort cmd k by_ (sortOrderG ord) gets o c al store)]
+  unfold P.sort sortOrderA sortOrderG P.opt
+  split <;> simp [build, normalize] <;> (split <;> simp [normTok, Piece.tok])
+
+theorem geoQuery_same (mb ru bu so : String) (lon lat r bw bh c : Int) (any : Bool) (pre post : List Piece) :
+    normalize (build true (pre ++ P.geoQuery mb ru bu so lon lat r bw bh c any ++ post)) =
+      normalize (build false (pre ++ P.geoQuery mb ru bu so lon lat r bw bh c any ++ post)) :=
+  build_norm _
+
 /-- coverage: number of adapter methods with a transcribed reference -/
-theorem coverage_count : covered.length = 66 := by decide
+theorem coverage_count : covered.length = 104 := by decide
 
 /-! ### Non-vacuity -/
 example : (A.set "k" "v" (1500 * ms)).norm = .argv [U "SET", S "k", S "v", U "PX", N 1500] := by decide
